@@ -1,1 +1,445 @@
-(* C16 stub: to be written *)
+(* Proofs about the ArrayCollection state machine (Model/Collection.v). *)
+From Coq Require Import List ZArith Lia Bool Arith.
+From EPG Require Import Scalar State ListLemmas NdArray NdArrayProofs Collection.
+Import ListNotations.
+
+(* ------------------------------------------------------------------ association lists *)
+Lemma lookup_map_snd {A B} (f : nat -> A -> B) k m :
+  lookup k (map (fun p => (fst p, f (fst p) (snd p))) m) = option_map (f k) (lookup k m).
+Proof.
+  induction m as [|[k' v] m IH]; simpl; auto.
+  destruct (Nat.eqb_spec k k') as [->|]; simpl; auto.
+Qed.
+
+Lemma in_set_assoc {A} k (v : A) m k' v' :
+  In (k', v') (set_assoc k v m) -> (k' = k /\ v' = v) \/ In (k', v') m.
+Proof.
+  induction m as [|[k0 v0] m IH]; simpl.
+  - intros [E|[]]. inversion E. auto.
+  - destruct (Nat.eqb_spec k k0) as [->|NE]; simpl.
+    + intros [E|H]; [inversion E; auto|auto].
+    + intros [E|H]; [auto|]. destruct (IH H); auto.
+Qed.
+
+Lemma lookup_in {A} k (m : list (nat * A)) v : lookup k m = Some v -> In (k, v) m.
+Proof.
+  induction m as [|[k' v'] m IH]; simpl; [discriminate|].
+  destruct (Nat.eqb_spec k k') as [->|]; [intros E; inversion E; auto|auto].
+Qed.
+
+Lemma in_lookup {A} k (m : list (nat * A)) v : In (k, v) m -> exists v', lookup k m = Some v'.
+Proof.
+  induction m as [|[k' v'] m IH]; simpl; [intros []|].
+  destruct (Nat.eqb_spec k k') as [->|NE]; [eauto|].
+  intros [E|H]; [inversion E; congruence|auto].
+Qed.
+
+Lemma in_del_assoc {A} k (m : list (nat * A)) p : In p (del_assoc k m) -> In p m.
+Proof. unfold del_assoc. rewrite filter_In. tauto. Qed.
+
+(* ------------------------------------------------------------------ ellipsis-first layouts *)
+Definition lay_first (l : layout) : Prop := exists rest, l = LEll :: rest /\ count_ell rest = 0.
+Definition wf_entry (e : entry) : Prop :=
+  exists rest, e_lay e = LEll :: rest /\ count_ell rest = 0 /\ length rest <= length (shp (e_arr e)).
+
+Lemma shared_axes_first rest sh :
+  shared_axes sh (LEll :: rest) = firstn (length sh - length rest) sh.
+Proof.
+  unfold shared_axes, slice. simpl. f_equal. lia.
+Qed.
+
+Lemma bshape_first S rest sh :
+  bshape S sh (LEll :: rest) = S ++ skipn (length sh - length rest) sh.
+Proof.
+  unfold bshape. simpl. do 2 f_equal. lia.
+Qed.
+
+Lemma count_ell_first rest : count_ell rest = 0 -> count_ell (LEll :: rest) = 1.
+Proof. unfold count_ell. simpl. intros ->. reflexivity. Qed.
+
+Lemma name_index_lt ax l : has_name ax l = true -> name_index ax l < length l.
+Proof.
+  unfold has_name. induction l as [|x l IH]; simpl; [discriminate|].
+  destruct (is_name ax x); simpl; [lia|]. intros H. specialize (IH H). lia.
+Qed.
+
+(* positions of the non-ellipsis items of an ellipsis-first layout lie behind the shared part *)
+Lemma pos_of_first rest ndim i :
+  1 <= i -> i <= length rest -> length rest <= ndim ->
+  pos_of ndim (LEll :: rest) i = ndim - length rest + (i - 1) /\
+  ndim - length rest <= pos_of ndim (LEll :: rest) i < ndim.
+Proof.
+  intros H1 H2 H3. unfold pos_of. simpl.
+  destruct (Nat.ltb_spec i 0); [lia|]. lia.
+Qed.
+
+Lemma named_axes_first rest ndim p :
+  length rest <= ndim -> In p (named_axes ndim (LEll :: rest)) ->
+  ndim - length rest <= fst p < ndim.
+Proof.
+  intros Hr Hin. unfold named_axes in Hin. apply in_flat_map in Hin.
+  destruct Hin as [i [Hi Hp]]. apply in_seq in Hi.
+  destruct i as [|i]; [simpl in Hp; contradiction|].
+  destruct (nth (S i) (LEll :: rest) LFree) eqn:E; try contradiction.
+  destruct Hp as [<-|[]]. simpl fst.
+  apply pos_of_first; simpl in *; lia.
+Qed.
+
+(* ------------------------------------------------------------------ resize keeps rank and shared part *)
+Lemma resize_array_rank a diff axis c :
+  axis < length (shp a) -> length (shp (resize_array a diff axis c)) = length (shp a).
+Proof.
+  intros H. unfold resize_array. destruct (diff =? 0)%Z; auto.
+  now apply length_resize_axis_shape.
+Qed.
+
+Lemma resize_array_firstn a diff axis c k :
+  k <= axis -> axis < length (shp a) ->
+  firstn k (shp (resize_array a diff axis c)) = firstn k (shp a).
+Proof.
+  intros Hk H. unfold resize_array. destruct (diff =? 0)%Z; auto.
+  rewrite resize_axis_shape, firstn_app, firstn_firstn, firstn_length.
+  replace (k - Nat.min axis (length (shp a))) with 0 by lia.
+  rewrite firstn_O, app_nil_r. f_equal. lia.
+Qed.
+
+Lemma resize_entry_wf ax diff cst e : wf_entry e -> wf_entry (resize_entry ax diff cst e).
+Proof.
+  intros [rest [Hl [Hc Hr]]]. unfold resize_entry.
+  destruct (has_name ax (e_lay e)) eqn:Hn; [|exists rest; auto].
+  exists rest. simpl. split; [auto|split; auto].
+  rewrite resize_array_rank; auto.
+  rewrite Hl in *. pose proof (name_index_lt _ _ Hn) as Hlt.
+  assert (Hi : name_index ax (LEll :: rest) = S (name_index ax rest)) by reflexivity.
+  rewrite Hi in *. simpl in Hlt.
+  apply pos_of_first; lia.
+Qed.
+
+Lemma resize_entry_lay ax diff cst e : e_lay (resize_entry ax diff cst e) = e_lay e.
+Proof. unfold resize_entry. destruct (has_name ax (e_lay e)); reflexivity. Qed.
+
+Lemma resize_entry_shared ax diff cst e :
+  wf_entry e -> entry_shared (resize_entry ax diff cst e) = entry_shared e.
+Proof.
+  intros [rest [Hl [Hc Hr]]]. unfold entry_shared. rewrite resize_entry_lay.
+  unfold resize_entry. destruct (has_name ax (e_lay e)) eqn:Hn; [|reflexivity]. simpl.
+  rewrite Hl in *. pose proof (name_index_lt _ _ Hn) as Hlt.
+  assert (Hi : name_index ax (LEll :: rest) = S (name_index ax rest)) by reflexivity.
+  rewrite Hi in *. simpl in Hlt.
+  set (ndim := length (shp (e_arr e))) in *.
+  destruct (pos_of_first rest ndim (S (name_index ax rest))) as [_ Hp]; try lia.
+  rewrite !shared_axes_first. rewrite resize_array_rank by (fold ndim; lia). fold ndim.
+  apply resize_array_firstn; fold ndim; lia.
+Qed.
+
+Lemma resize_named_rank axes a rest :
+  length rest <= length (shp a) ->
+  length (shp (resize_named axes a (LEll :: rest))) = length (shp a) /\
+  firstn (length (shp a) - length rest) (shp (resize_named axes a (LEll :: rest))) =
+  firstn (length (shp a) - length rest) (shp a).
+Proof.
+  intros Hr. unfold resize_named.
+  set (ndim := length (shp a)).
+  assert (Hall : forall p, In p (named_axes ndim (LEll :: rest)) -> ndim - length rest <= fst p < ndim)
+    by (intros p; apply named_axes_first; assumption).
+  assert (G : forall L arr, (forall p, In p L -> ndim - length rest <= fst p < ndim) ->
+            length (shp arr) = ndim ->
+            let r := fold_left (fun arr p =>
+              let size := nth (fst p) (shp arr) 0 in
+              match lookup (snd p) axes with
+              | Some k => if size =? k then arr else resize_array arr (Z.of_nat k - Z.of_nat size) (fst p) 0%Z
+              | None => arr end) L arr in
+            length (shp r) = ndim /\ firstn (ndim - length rest) (shp r) = firstn (ndim - length rest) (shp arr)).
+  { induction L as [|p L IH]; intros arr HL Ha; simpl; [auto|].
+    set (arr' := match lookup (snd p) axes with
+                 | Some k => if nth (fst p) (shp arr) 0 =? k then arr
+                             else resize_array arr (Z.of_nat k - Z.of_nat (nth (fst p) (shp arr) 0)) (fst p) 0%Z
+                 | None => arr end).
+    assert (Hp : ndim - length rest <= fst p < ndim) by (apply HL; left; reflexivity).
+    assert (H' : length (shp arr') = ndim /\
+                 firstn (ndim - length rest) (shp arr') = firstn (ndim - length rest) (shp arr)).
+    { unfold arr'. destruct (lookup (snd p) axes); [|auto].
+      destruct (_ =? _); [auto|]. split.
+      - rewrite resize_array_rank; lia.
+      - apply resize_array_firstn; lia. }
+    destruct H' as [H1 H2].
+    destruct (IH arr' (fun q Hq => HL q (or_intror Hq)) H1) as [H3 H4].
+    split; [exact H3|exact (eq_trans H4 H2)]. }
+  apply (G _ a Hall eq_refl).
+Qed.
+
+(* ------------------------------------------------------------------ the cache invariant *)
+(* cached shape = recomputation from arrays + default; per-array broadcast shapes coherent;
+   stored layouts ellipsis-first with enough axes *)
+Definition CacheInv (c : coll) : Prop :=
+  c_shape c = calc_shape (c_app c) (shared_list (c_arrays c) (c_default c)) /\
+  (forall nm e, lookup nm (c_arrays c) = Some e ->
+                lookup nm (c_shapes c) = Some (bshape (c_shape c) (shp (e_arr e)) (e_lay e))) /\
+  (forall nm e, In (nm, e) (c_arrays c) -> wf_entry e).
+
+Lemma lookup_calc_shapes S arrs nm :
+  lookup nm (calc_shapes S arrs) =
+  option_map (fun e => bshape S (shp (e_arr e)) (e_lay e)) (lookup nm arrs).
+Proof. unfold calc_shapes. apply (lookup_map_snd (fun _ e => bshape S (shp (e_arr e)) (e_lay e))). Qed.
+
+Lemma cache_with_arrays c arrs dflt axes :
+  (forall nm e, In (nm, e) arrs -> wf_entry e) -> CacheInv (with_arrays c arrs dflt axes).
+Proof.
+  intros H. unfold CacheInv, with_arrays. simpl. split; [reflexivity|]. split; [|exact H].
+  intros nm e Hl. rewrite lookup_calc_shapes, Hl. reflexivity.
+Qed.
+
+Lemma cache_init app : CacheInv (init app).
+Proof. apply cache_with_arrays. intros nm e []. Qed.
+
+Lemma cache_set c name a lay rsz chk c' :
+  (forall l, lay = Some l -> lay_first l) ->
+  CacheInv c -> set c name a lay rsz chk = Ok c' -> CacheInv c'.
+Proof.
+  intros Hlay [_ [_ Hwf]] Hs. unfold set in Hs.
+  set (l := match lay with Some l => l | None =>
+             match lookup name (c_arrays c) with Some e => e_lay e | None => [LEll] end end) in *.
+  assert (Hl : lay_first l).
+  { unfold l. destruct lay; [now apply Hlay|].
+    destruct (lookup name (c_arrays c)) eqn:E.
+    - apply lookup_in in E. destruct (Hwf _ _ E) as [rest [H1 [H2 _]]]. exists rest. auto.
+    - exists []. auto. }
+  destruct Hl as [rest [Hl Hc]]. rewrite Hl in *.
+  destruct (negb (count_ell (LEll :: rest) =? 1)); [discriminate|].
+  destruct (Nat.ltb_spec (length (shp a) + 1) (length (LEll :: rest))); [discriminate|].
+  simpl in H.
+  match type of Hs with (if ?b then _ else _) = _ => destruct b; [discriminate|] end.
+  inversion Hs; subst c'. apply cache_with_arrays.
+  intros nm e Hin. apply in_set_assoc in Hin. destruct Hin as [[_ ->]|Hin]; [|eauto].
+  exists rest. simpl. split; [auto|split; auto].
+  destruct rsz; [|lia].
+  destruct (resize_named_rank (gna (c_arrays c) (Some name)) a rest) as [-> _]; lia.
+Qed.
+
+Lemma set_data_lookup name d arrs nm e' :
+  lookup nm (set_data name d arrs) = Some e' ->
+  exists e, lookup nm arrs = Some e /\ e_lay e' = e_lay e /\ shp (e_arr e') = shp (e_arr e).
+Proof.
+  unfold set_data. induction arrs as [|[k v] arrs IH]; simpl; [discriminate|].
+  destruct (name =? k); simpl; destruct (nm =? k); auto;
+    intros E; inversion E; subst; eexists; (split; [reflexivity|split; reflexivity]).
+Qed.
+
+Lemma set_data_in name d arrs nm e' :
+  In (nm, e') (set_data name d arrs) ->
+  exists e, In (nm, e) arrs /\ e_lay e' = e_lay e /\ shp (e_arr e') = shp (e_arr e).
+Proof.
+  unfold set_data. intros H. apply in_map_iff in H. destruct H as [[k v] [E Hin]]. simpl in E.
+  destruct (name =? k); inversion E; subst; eexists; (split; [exact Hin|split; reflexivity]).
+Qed.
+
+Lemma set_data_shared name d arrs dflt :
+  shared_list (set_data name d arrs) dflt = shared_list arrs dflt.
+Proof.
+  unfold shared_list, set_data. f_equal. rewrite map_map. apply map_ext.
+  intros [k v]. simpl. destruct (name =? k); reflexivity.
+Qed.
+
+Lemma cache_update c name v rsz c' p :
+  CacheInv c -> update c name v rsz = Ok (c', p) -> CacheInv c'.
+Proof.
+  intros HI Hu. unfold update in Hu.
+  destruct (lookup name (c_arrays c)) as [e|] eqn:E; [|discriminate].
+  destruct (shp (e_arr e)) eqn:Esh; [discriminate|]. rewrite <- Esh in Hu.
+  destruct (assign_to v (shp (e_arr e))) as [d|].
+  - inversion Hu; subst. destruct HI as [H1 [H2 H3]].
+    unfold CacheInv. simpl. split; [|split].
+    + rewrite set_data_shared. exact H1.
+    + intros nm e' Hl. apply set_data_lookup in Hl. destruct Hl as [e0 [Hl [-> ->]]]. auto.
+    + intros nm e' Hin. apply set_data_in in Hin. destruct Hin as [e0 [Hin [Hlay Hshp]]].
+      destruct (H3 _ _ Hin) as [rest [Ha [Hb Hc]]]. exists rest. rewrite Hlay, Hshp. auto.
+  - destruct (set c name v None rsz false) as [c1|] eqn:Es; [|discriminate].
+    inversion Hu; subst. eapply cache_set; [|exact HI|exact Es]. discriminate.
+Qed.
+
+Lemma cache_pop c name : CacheInv c -> CacheInv (fst (pop c name)).
+Proof.
+  intros HI. unfold pop. destruct (lookup name (c_arrays c)); [|exact HI]. simpl.
+  apply cache_with_arrays. intros nm e1 Hin. apply in_del_assoc in Hin.
+  destruct HI as [_ [_ H]]. eauto.
+Qed.
+
+Lemma cache_resize c ax size cst c' : CacheInv c -> resize c ax size cst = Ok c' -> CacheInv c'.
+Proof.
+  intros HI Hr. unfold resize in Hr.
+  destruct (lookup ax (c_axes c)); [|discriminate].
+  destruct (_ =? 0)%Z; [inversion Hr; subst; exact HI|].
+  inversion Hr; subst c'; clear Hr. destruct HI as [H1 [H2 H3]].
+  unfold CacheInv. simpl. split; [|split].
+  - rewrite H1 at 1. f_equal. unfold shared_list. f_equal. rewrite map_map. simpl.
+    apply map_ext_in. intros [k e] Hin. simpl. symmetry. apply resize_entry_shared. eauto.
+  - intros nm e' Hl.
+    rewrite (lookup_map_snd (fun _ e => resize_entry ax _ cst e)) in Hl.
+    destruct (lookup nm (c_arrays c)) as [e|] eqn:E; [|discriminate]. simpl in Hl. inversion Hl; subst e'; clear Hl.
+    specialize (H2 _ _ E).
+    set (arrs := map _ (c_arrays c)).
+    assert (Hla : lookup nm arrs = Some (resize_entry ax (Z.of_nat size - Z.of_nat n) cst e)).
+    { unfold arrs. rewrite (lookup_map_snd (fun _ e => resize_entry ax _ cst e)), E. reflexivity. }
+    transitivity (option_map (fun s =>
+       match lookup nm arrs with
+       | Some e1 => if has_name ax (e_lay e1) then bshape (c_shape c) (shp (e_arr e1)) (e_lay e1) else s
+       | None => s end) (lookup nm (c_shapes c))).
+    { clear. induction (c_shapes c) as [|[k s] m IH]; simpl; auto.
+      destruct (Nat.eqb_spec nm k) as [->|NE].
+      - destruct (lookup k arrs) as [e1|]; simpl; [|now rewrite Nat.eqb_refl].
+        destruct (has_name ax (e_lay e1)); simpl; now rewrite Nat.eqb_refl.
+      - destruct (lookup k arrs) as [e1|]; simpl.
+        + destruct (has_name ax (e_lay e1)); simpl; destruct (Nat.eqb_spec nm k); try contradiction; auto.
+        + destruct (Nat.eqb_spec nm k); try contradiction; auto. }
+    rewrite H2, Hla. simpl. rewrite resize_entry_lay.
+    destruct (has_name ax (e_lay e)) eqn:Hn; [reflexivity|].
+    unfold resize_entry. rewrite Hn. reflexivity.
+  - intros nm e' Hin. apply in_map_iff in Hin. destruct Hin as [[k e] [Eq Hin]].
+    inversion Eq; subst. apply resize_entry_wf. eauto.
+Qed.
+
+Lemma cache_same_arrays c dflt axes : CacheInv c -> CacheInv (with_arrays c (c_arrays c) dflt axes).
+Proof. intros [_ [_ H]]. apply cache_with_arrays. exact H. Qed.
+
+Lemma copy_id c : copy c = c.
+Proof. destruct c; reflexivity. Qed.
+
+(* explicit layouts of a call history are ellipsis-first (the only ones StateMatrix uses) *)
+Definition bop_first (o : bop) : Prop :=
+  match o with OSet _ _ (Some l) _ _ => lay_first l | _ => True end.
+Definition op_first (o : op) : Prop :=
+  match o with OMain b | OChild b => bop_first b | _ => True end.
+
+Lemma cache_bstep c o c' p r :
+  bop_first o -> CacheInv c -> bstep c o = Ok (c', p, r) -> CacheInv c'.
+Proof.
+  intros Hf HI Hs. destruct o; simpl in Hs.
+  - destruct (set c name a lay rsz chk) eqn:E; inversion Hs; subst.
+    eapply cache_set; [|exact HI|exact E]. intros l ->. exact Hf.
+  - destruct (update c name a rsz) as [[c1 p1]|] eqn:E; inversion Hs; subst.
+    eapply cache_update; eauto.
+  - destruct (get c name bcast); inversion Hs; subst. exact HI.
+  - pose proof (cache_pop c name HI) as H. destruct (pop c name). inversion Hs; subst. exact H.
+  - destruct (resize c ax size cst) eqn:E; inversion Hs; subst. eapply cache_resize; eauto.
+  - inversion Hs; subst. now apply cache_same_arrays.
+  - inversion Hs; subst. now apply cache_same_arrays.
+  - unfold broadcast in Hs. destruct (check_shape c sh [LEll] None); inversion Hs; subst.
+    now apply cache_same_arrays.
+Qed.
+
+Definition CacheInvS (s : state) : Prop :=
+  CacheInv (main s) /\ forall ch, child s = Some ch -> CacheInv ch.
+
+Lemma cache_follow parent ch : CacheInv ch -> CacheInv (follow parent ch).
+Proof. apply cache_same_arrays. Qed.
+
+Lemma cache_step s o : op_first o -> CacheInvS s -> CacheInvS (step_state s o).
+Proof.
+  intros Hf [Hm Hc]. unfold step_state.
+  destruct (step s o) as [[s' r]|] eqn:E; [|split; assumption].
+  destruct o; simpl in E.
+  - destruct (bstep (main s) o) as [[[c' p] r']|] eqn:Eb; inversion E; subst; clear E.
+    split; simpl.
+    + exact (cache_bstep _ _ _ _ _ Hf Hm Eb).
+    + intros ch Hch. destruct p; [|auto].
+      destruct (child s) as [ch0|]; simpl in Hch; inversion Hch; subst.
+      apply cache_follow. auto.
+  - destruct (child s) as [ch|] eqn:Ech; [|discriminate].
+    destruct (bstep ch o) as [[[c' p] r']|] eqn:Eb; inversion E; subst; clear E.
+    split; simpl; [assumption|]. intros ch' Hch'. inversion Hch'; subst.
+    exact (cache_bstep _ _ _ _ _ Hf (Hc _ eq_refl) Eb).
+  - inversion E; subst. split; simpl; [now rewrite copy_id|assumption].
+  - destruct (child s) eqn:Ech; inversion E; subst. split; simpl; [assumption|].
+    intros ch Hch. inversion Hch; subst. apply cache_follow, cache_init.
+Qed.
+
+Lemma cache_start app : CacheInvS (start app).
+Proof. split; [apply cache_init|]. simpl. discriminate. Qed.
+
+Lemma cache_run s h : List.Forall op_first h -> CacheInvS s -> CacheInvS (run s h).
+Proof.
+  unfold run. revert s. induction h as [|o h IH]; intros s Hf HI; simpl; [assumption|].
+  inversion Hf; subst. apply IH; [assumption|]. now apply cache_step.
+Qed.
+
+(* the shape caches are coherent after every call history, both expand conventions *)
+Theorem cache_reachable app h : List.Forall op_first h -> CacheInvS (run (start app) h).
+Proof. intros H. apply cache_run; [assumption|apply cache_start]. Qed.
+
+(* ------------------------------------------------------------------ copy *)
+(* copy() returns a collection with the same observable state (independence of the memory is
+   checked on the implementation by props/c16.py: the model has no aliasing) *)
+Theorem copy_equal s r : observe r (fst (match step s OCopy with Ok x => x | Err _ => (s, None) end)) = observe r s.
+Proof. simpl. rewrite copy_id. destruct s; reflexivity. Qed.
+
+(* ------------------------------------------------------------------ refuted clauses (faithful model) *)
+Definition zeros (sh : list nat) : nd := mkNd sh (repeat 0%Z (prod sh)).
+Definition all_ok (s : state) (h : list op) : bool :=
+  forallb (fun x => match o_res x with Ok _ => true | Err _ => false end) (trace s h).
+Definition gets_ok (c : coll) : bool :=
+  forallb (fun p => match snd p with Ok _ => true | Err _ => false end) (get_all c).
+
+(* check_shape slices the broadcast part wrongly when the ellipsis is not the first item:
+   a shape-incompatible insertion is accepted and the next get raises *)
+Lemma set_incompatible_raises_refuted :
+  exists app h, all_ok (start app) h = true /\
+                get (main (run (start app) h)) 2 true = Err EValue.
+Proof.
+  exists false, [OMain (OBroadcast [3]); OMain (OSet 2 (zeros [3; 2]) (Some [LName 0; LEll]) false true)].
+  vm_compute. split; reflexivity.
+Qed.
+
+(* update falls back to set(check=False): ellipsis-first layouts, every call returns normally,
+   afterwards a stored array cannot be returned *)
+Lemma update_unchecked_refuted :
+  exists app h, List.Forall op_first h /\ all_ok (start app) h = true /\
+                get (main (run (start app) h)) 1 true = Err EValue.
+Proof.
+  exists false, [OMain (OSet 0 (zeros [2]) None false true); OMain (OSet 1 (zeros [2]) None false true);
+                 OMain (OUpdate 0 (zeros [3]) false)].
+  split; [repeat constructor|]. vm_compute. split; reflexivity.
+Qed.
+
+(* ... or a named axis has two sizes *)
+Lemma update_named_axis_refuted :
+  exists app h, List.Forall op_first h /\ all_ok (start app) h = true /\
+    let c := main (run (start app) h) in
+    option_map (fun e => shp (e_arr e)) (lookup 0 (c_arrays c)) = Some [5] /\
+    option_map (fun e => shp (e_arr e)) (lookup 1 (c_arrays c)) = Some [3] /\
+    option_map e_lay (lookup 0 (c_arrays c)) = Some [LEll; LName 0] /\
+    option_map e_lay (lookup 1 (c_arrays c)) = Some [LEll; LName 0].
+Proof.
+  exists false, [OMain (OSet 0 (zeros [3]) (Some [LEll; LName 0]) false true);
+                 OMain (OSet 1 (zeros [3]) (Some [LEll; LName 0]) false true);
+                 OMain (OUpdate 0 (zeros [5]) false)].
+  split; [repeat constructor; exists [LName 0]; split; reflexivity|]. vm_compute. repeat split; reflexivity.
+Qed.
+
+(* update of a stored 0-d array raises IndexError, whatever the value *)
+Lemma update_0d_refuted :
+  exists app h v, all_ok (start app) h = true /\
+    step (run (start app) h) (OMain (OUpdate 0 v false)) = Err EIndex.
+Proof.
+  exists false, [OMain (OSet 0 (mkNd [] [7%Z]) None false true)], (mkNd [] [8%Z]).
+  vm_compute. split; reflexivity.
+Qed.
+
+(* pop does not refresh the named-axes cache *)
+Lemma pop_axes_stale :
+  exists app h, all_ok (start app) h = true /\
+    let c := main (run (start app) h) in c_axes c = [(0, 3)] /\ gna (c_arrays c) None = [].
+Proof.
+  exists false, [OMain (OSet 0 (zeros [2; 3]) (Some [LEll; LName 0]) false true); OMain (OPop 0)].
+  vm_compute. repeat split; reflexivity.
+Qed.
+
+(* a linked collection's default is overwritten by the parent's shape without any check *)
+Lemma link_child_refuted :
+  exists app h, List.Forall op_first h /\ all_ok (start app) h = true /\
+    match child (run (start app) h) with Some ch => get ch 0 true = Err EValue | None => False end.
+Proof.
+  exists false, [OMain (OSet 0 (zeros [2]) None false true); OLink false;
+                 OChild (OSet 0 (zeros [2]) None false true); OMain (OPop 0);
+                 OMain (OSet 0 (zeros [3]) None false true)].
+  split; [repeat constructor|]. vm_compute. split; reflexivity.
+Qed.
